@@ -201,6 +201,13 @@ impl Router {
                     IpcSelectionResult::MessageReceived(id, message) => {
                         self.handlers.get_mut(&id).unwrap()(message)
                     },
+                    // The wakeup channel closed: the `RouterProxy` was dropped, so no more routes
+                    // can be added and nobody can ask for shutdown. There is no handler
+                    // registered under this id; stop instead of panicking.
+                    IpcSelectionResult::ChannelClosed(id) if id == self.msg_wakeup_id => {
+                        self.handlers.clear();
+                        return;
+                    },
                     IpcSelectionResult::ChannelClosed(id) => {
                         let _ = self.handlers.remove(&id).unwrap();
                     },
